@@ -322,6 +322,7 @@ type c16Stats struct {
 	neverOpened, selfExit, gets                                                                      int
 	maxAcks                                                                                          int
 	closedRefused, closedAcked, closedStalled                                                        int
+	overlapRefused, overlapGranted                                                                   int
 }
 
 // one directory: returns the trace lines, stats, and a non-empty string when the run is undecided (broken).
@@ -397,6 +398,32 @@ func c16Dir(base string, dirIdx int, seed int64, cycles, maxStores int, maxRun t
 			ch.waitFor(func(s c16Child) bool { return s.acks >= plan.N || s.done || s.openFail != "" || s.storeFail != "" }, c16Timeout)
 			st.killsAck++
 		}
+		// Overlapping instance (a supervisor that restarts the node before the old process is gone): in every third
+		// cycle a second Open of the directory is attempted while the child is still storing.  Refusing it is fine;
+		// if it is granted, the second instance is closed again and the cycle goes on - whatever the first instance
+		// acknowledges, before or after, must still be there after the kill and the reopen.
+		overlap := ""
+		if plan.Mode != "early" && cyc%3 == 1 && ch.snapshot().opened && !ch.snapshot().eof {
+			func() {
+				defer func() {
+					if x := recover(); x != nil {
+						overlap = fmt.Sprintf("panic: %v", x)
+					}
+				}()
+				d2, err := Open(dir)
+				if err != nil {
+					overlap = "refused"
+					st.overlapRefused++
+					return
+				}
+				overlap = "granted"
+				st.overlapGranted++
+				time.Sleep(3 * time.Millisecond)
+				d2.Close()
+				before := ch.snapshot().acks
+				ch.waitFor(func(s c16Child) bool { return s.acks >= before+20 || s.done || s.eof || s.storeFail != "" }, 2*time.Second)
+			}()
+		}
 		selfExit := ch.snapshot().eof
 		if err := ch.cmd.Process.Kill(); err != nil && !strings.Contains(err.Error(), "already finished") {
 			return lines, st, "cannot kill the child: " + err.Error()
@@ -451,7 +478,7 @@ func c16Dir(base string, dirIdx int, seed int64, cycles, maxStores int, maxRun t
 			st.neverOpened++
 		}
 		log("Kill", map[string]interface{}{"mode": plan.Mode, "delay_us": int(plan.Delay / time.Microsecond), "n": plan.N,
-			"acks": s.acks, "cycle": cyc, "opened": s.opened}, nil)
+			"acks": s.acks, "cycle": cyc, "opened": s.opened, "overlap": overlap}, nil)
 		// ---- reopen and read everything
 		d, err := Open(dir)
 		if err != nil {
@@ -650,9 +677,9 @@ func TestVerifStoreCrash(t *testing.T) {
 	}
 	fmt.Printf("VERIF-C16 {\"cycles\":%d,\"kills_while_opening\":%d,\"kills_timed\":%d,\"kills_on_ack\":%d,\"stores_acked\":%d,"+
 		"\"stores_unacked\":%d,\"unacked_survived\":%d,\"unacked_lost\":%d,\"killed_before_opened\":%d,\"child_exited_by_itself\":%d,"+
-		"\"lookups\":%d,\"max_acks_in_a_cycle\":%d,\"stores_on_closed_store_refused\":%d,\"stores_on_closed_store_acknowledged\":%d,\"stores_on_closed_store_stalled\":%d,\"lines\":%d}\n",
+		"\"lookups\":%d,\"max_acks_in_a_cycle\":%d,\"stores_on_closed_store_refused\":%d,\"stores_on_closed_store_acknowledged\":%d,\"stores_on_closed_store_stalled\":%d,\"second_open_while_open_refused\":%d,\"second_open_while_open_granted\":%d,\"lines\":%d}\n",
 		st.cycles, st.killsEarly, st.killsRun, st.killsAck, st.storesAcked, st.storesUnacked, st.unackedSurvived,
-		st.unackedLost, st.neverOpened, st.selfExit, st.gets, st.maxAcks, st.closedRefused, st.closedAcked, st.closedStalled, tr.n)
+		st.unackedLost, st.neverOpened, st.selfExit, st.gets, st.maxAcks, st.closedRefused, st.closedAcked, st.closedStalled, st.overlapRefused, st.overlapGranted, tr.n)
 }
 
 // Deterministic kill points inside db.Open.  A SIGKILL that lands in Open between the creation of a file and its
